@@ -145,6 +145,8 @@ func runC06(c *Ctx, tier string) {
 	runMergeHeapRootOnly(c, "C06-M1")
 	// S3
 	spillPeekerCopy(c, "C06-S3")
+	runNumericOrderExact(c, "C06-T1")
+	runSpillMergeAlwaysFixes(c, "C06-H1")
 }
 
 func init() {
